@@ -7,6 +7,11 @@ pub use free_path::FreePathStatus;
 
 mod advance_rewind;
 
+#[cfg(feature = "verif-hooks")]
+mod verif_view;
+#[cfg(feature = "verif-hooks")]
+pub use verif_view::TrainDispView;
+
 #[derive(Debug, Default, Clone, Serialize, Deserialize, SerdeAPI)]
 pub struct TrainDisp {
     /// Estimated time network. Does not change after creation
